@@ -4,8 +4,9 @@ from harness import truth
 from harness import worlds
 
 PROP = "C16"
-LEAN_MODULE = "Ztr.Props.C16"
-THEOREMS = ['Ztr.Result.C16_stop_set', 'Ztr.Result.C16_stop_mono', 'Ztr.Result.C16_no_test_after', 'Ztr.Result.C16_prefix', 'Ztr.Runner.C16_no_layer_after', 'Ztr.Runner.C16_no_child_after', 'Ztr.Runner.C16_iterations']
+LEAN_MODULE = "Ztr.Props.C16Run"
+LEAN_DEPS = ["Ztr.Props.C16"]
+THEOREMS = ["Ztr.Runner.C16_stops_and_cleans_up", 'Ztr.Result.C16_stop_set', 'Ztr.Result.C16_stop_mono', 'Ztr.Result.C16_no_test_after', 'Ztr.Result.C16_prefix', 'Ztr.Runner.C16_no_layer_after', 'Ztr.Runner.C16_no_child_after', 'Ztr.Runner.C16_iterations']
 RULE = ("worlds run with -x: the first bad outcome (failure, error, unexpected success, failing subtest, error in "
         "setUp/tearDown/cleanup, layer setUp failure) at the first/middle/last test of the first/middle/last layer, "
         "with --repeat 1..3, --shuffle-seed, and layers that cannot be torn down (sequential resume in children). "
